@@ -153,7 +153,7 @@ Section TreeOk.
   Variable diff : differ.
 
   Definition stl_ok (old new : elem) : Prop :=
-    e_text old = e_text new /\ Permutation (e_attrs old) (e_attrs new) /\
+    e_text old = e_text new /\ attrs_ok (e_attrs old) (e_attrs new) /\
     same_addr_attrs (e_attrs old) (e_attrs new) /\
     (exists T, Forall (leafT T) (e_children old) /\ Forall (leafT T) (e_children new)) /\
     Forall plain_leaf (e_children old) /\ Forall plain_leaf (e_children new) /\
@@ -430,41 +430,53 @@ Section TreeSound.
     rewrite Htag, seqb_refl. cbn [negb]. unfold mandatory_id in Hm1, Hm2. rewrite Hm1, Hm2. cbn [bind].
     rewrite <- Htag.
     destruct (seqb (e_tag old) "SegmentTimeline") eqn:ESTL.
-    - (* SegmentTimeline: leaf list *)
-      destruct HT as (Htext & Hperm & [Hid Hsu] & (T & HoT & HnT) & Hop & Hnp & Hs).
-      assert (Hsim0 : forall R, R = e_children new -> sim (set_children old R) new).
-      { intros R ->. destruct old as [t a x c], new as [t' a' x' c']. cbn in *. subst. split.
+    - (* SegmentTimeline: the element's attributes, then the leaf list *)
+      destruct HT as (Htext & OK & [Hid Hsu] & (T & HoT & HnT) & Hop & Hnp & Hs).
+      destruct (attr_ops_apply P ctx old (e_attrs new) HP HL OK Hid Hsu) as (r & Hr & Hperm).
+      assert (Hnr : NoDup (keys r)).
+      { eapply Permutation_NoDup; [symmetry; apply keys_perm; exact Hperm|apply OK]. }
+      set (e1 := set_attrs old r).
+      assert (HL1 : located P ctx (sig_of e1)).
+      { eapply located_compat; [exact HP| |exact HL]. unfold e1. rewrite sig_of_set_attrs.
+        unfold sig_compat, sig_of. cbn [fst snd]. split; [reflexivity|].
+        split; [rewrite Hid|rewrite Hsu]; symmetry; now apply aval_perm. }
+      assert (HC1 : e_children e1 = e_children old) by reflexivity.
+      assert (Hsim0 : forall R, R = e_children new -> sim (set_children e1 R) new).
+      { intros R ->. unfold e1. destruct old as [t a x c], new as [t' a' x' c']. cbn in *. subst. split.
         - constructor; [exact Hperm|]. apply sims_equiv, sims_refl.
-        - repeat split; assumption. }
-      unfold leaflist_changes_with.
+        - repeat split; cbn; now apply aval_perm. }
+      assert (Hfin : forall lops R, leaflist_changes_with diff old new P = Ok lops ->
+                apply_ops lops (plug ctx e1) = Some (plug ctx (set_children e1 R)) -> R = e_children new ->
+                exists ops new', (do lops0 <- leaflist_changes_with diff old new P; Ok (attr_ops P (e_attrs old) (e_attrs new) ++ lops0)) = Ok ops /\
+                                 apply_ops ops (plug ctx old) = Some (plug ctx new') /\ sim new' new).
+      { intros lops R H1 H2 H3. rewrite H1. cbn [bind]. eexists. exists (set_children e1 R). split; [reflexivity|]. split.
+        - rewrite apply_ops_app, Hr. cbn [obind]. exact H2.
+        - now apply Hsim0. }
+      unfold leaflist_changes_with in Hfin |- *.
       destruct (e_children old) as [|o1 oldE'] eqn:EO.
       + destruct (e_children new) as [|n1 newE'] eqn:EN.
-        * exists [], old. split; [reflexivity|]. split; [reflexivity|].
-          replace old with (set_children old []) at 1 by (rewrite <- EO; now destruct old). now apply Hsim0.
+        * apply (Hfin [] []); [reflexivity| |reflexivity]. cbn [apply_ops]. do 2 f_equal.
+          unfold e1. destruct old; cbn in *. now rewrite EO.
         * destruct Hs as (s & Hd & Hv).
           assert (HT1 : T = e_tag n1) by (inversion HnT as [|? ? [Ht _] _]; now subst).
-          rewrite (leaflist_check_ok (e_tag n1) []) by constructor.
-          rewrite (leaflist_check_ok (e_tag n1) (n1 :: newE')).
-          2:{ rewrite <- HT1. now apply leaf_list_shape. }
-          cbn [bind]. rewrite Hd. cbn [bind].
-          destruct (leaflist_script_sound T [] (n1 :: newE') HoT HnT P plain_leaf Hop Hnp s ctx old Hv EO HL)
+          destruct (leaflist_script_sound T [] (n1 :: newE') HoT HnT P plain_leaf Hop Hnp s ctx e1 Hv HC1 HL1)
             as (ops & R & Hops & Happ & HR & HQR).
-          exists ops, (set_children old R). split; [exact Hops|]. split; [exact Happ|].
-          apply Hsim0. now apply Forall2_plain_eq.
+          apply (Hfin ops R); [|exact Happ|now apply Forall2_plain_eq].
+          rewrite (leaflist_check_ok (e_tag n1) []) by constructor.
+          rewrite (leaflist_check_ok (e_tag n1) (n1 :: newE')) by (rewrite <- HT1; now apply leaf_list_shape).
+          cbn [bind]. rewrite Hd. cbn [bind]. exact Hops.
       + destruct Hs as (s & Hd & Hv).
         assert (HT1 : T = e_tag o1) by (inversion HoT as [|? ? [Ht _] _]; now subst).
         assert (Hchk : forall l, Forall (leafT T) l -> Forall plain_leaf l -> leaflist_check (e_tag o1) l = Ok tt).
         { intros l H1 H2. apply leaflist_check_ok. rewrite <- HT1. now apply leaf_list_shape. }
-        rewrite (Hchk _ HoT Hop), (Hchk _ HnT Hnp). cbn [bind].
         assert (Hd' : diff equalLeafs (o1 :: oldE') (e_children new) = Ok s).
         { destruct (e_children new); exact Hd. }
         assert (Hv' : valid_script equalLeafs s (o1 :: oldE') (e_children new) = true).
         { destruct (e_children new); exact Hv. }
-        rewrite Hd'. cbn [bind].
-        destruct (leaflist_script_sound T (o1 :: oldE') (e_children new) HoT HnT P plain_leaf Hop Hnp s ctx old Hv' EO HL)
+        destruct (leaflist_script_sound T (o1 :: oldE') (e_children new) HoT HnT P plain_leaf Hop Hnp s ctx e1 Hv' HC1 HL1)
           as (ops & R & Hops & Happ & HR & HQR).
-        exists ops, (set_children old R). split; [exact Hops|]. split; [exact Happ|].
-        apply Hsim0. now apply Forall2_plain_eq.
+        apply (Hfin ops R); [|exact Happ|now apply Forall2_plain_eq].
+        rewrite (Hchk _ HoT Hop), (Hchk _ HnT Hnp). cbn [bind]. rewrite Hd'. cbn [bind]. exact Hops.
     - destruct (isLeaf old && isLeaf new) eqn:ELeaf.
       + (* two leaves *)
         apply andb_true_iff in ELeaf. destruct ELeaf as [Hlo Hln].
